@@ -1348,6 +1348,44 @@ def harness_of(line):
 MODELLED = ("s64", "ck1", "ck2", "hoff", "buf", "ckr", "h2c", "h2d", "gwd", "gws", "h1d", "h1s", "rng", "tmpb")
 
 
+def hpack_encoder_histories(ctx):
+    """explore: the real ls-hpack ENCODER (and decoder) under the sanitizers on header-list histories in which the peer
+    changes SETTINGS_HEADER_TABLE_SIZE (an untrusted number that re-allocates the encoder's history buffer).  The
+    histories are C07's (its generator and harness); here only 'no sanitizer report, no abort' is judged."""
+    from . import c07
+    from ..runner import Ctx
+    t0 = time.time()
+    exe, err = C.build_harness("h_hpack")
+    if exe is None:
+        ctx.broken.append({"kind": "harness-build", "names": ["h_hpack"], "log": (err or "")[-3000:]})
+        return
+    sub = Ctx("C07", ctx.tier)           # same seed; nothing of it is reported or written
+    name = "explore:hpack-encoder-histories(lshpack_enc with table-size changes, lshpack_dec)"
+    try:
+        lines = c07.gen_histories(sub, exe)
+    except c07.ProducerCrash as ex:
+        ctx.violation("crash:%s:%s" % (name, ex.line[:60]),
+                      "the real HPACK encoder crashed / sanitizer report while encoding a header-list history with "
+                      "SETTINGS_HEADER_TABLE_SIZE changes",
+                      {"property": ctx.pid, "kind": "sanitizer-or-crash", "correspondence": name, "input": ex.line,
+                       "rc": ex.rc, "stderr": ex.err, "confirmed_alone_or_with_prefix": ex.confirmed}, found=True)
+        ctx.streams.append({"name": name, "cases": 0, "disagreements": 0, "oracle_hits": 1, "wall_s": round(time.time() - t0, 2)})
+        return
+    except RuntimeError as ex:
+        ctx.notes.append("hpack encoder histories skipped (reference encoder did not run): %s" % str(ex)[-200:])
+        return
+    out, crashes = run_resilient([exe], lines)
+    for i, rc, e in crashes[:3]:
+        ctx.violation("crash:%s:%s" % (name, lines[i][:60]), "crash / sanitizer report decoding an HPACK history",
+                      {"property": ctx.pid, "kind": "sanitizer-or-crash", "correspondence": name, "input": lines[i], "rc": rc,
+                       "stderr": (e or "")[-4000:]}, found=True)
+    ctx.evaluations += len(lines)
+    ctx.keys["hpack-hist:%s" % ("crash" if crashes else "ok")] += len(lines)
+    ctx.dist["hpack-hist"] += len(lines)
+    ctx.streams.append({"name": name, "cases": len(lines), "disagreements": 0, "oracle_hits": len(crashes),
+                        "wall_s": round(time.time() - t0, 2)})
+
+
 def run(ctx):
     exes = build_all(ctx)
     if exes is None:
@@ -1372,6 +1410,7 @@ def run(ctx):
     stream(ctx, "h2-data(h2_recv_data)", [h2], "arith", gen_h2d(ctx), oracle, classify)
     stream(ctx, "explore:h2-frames(h2_parse_frames)", [h2], None, gen_h2f(ctx), oracle, classify)
     stream(ctx, "explore:parsers(date,etag,forwarded,digest)", [px], None, gen_px(ctx), oracle, classify)
+    hpack_encoder_histories(ctx)
     ctx.rule = ("boundary-heavy generated cases per routine (values around 2^31, 2^32, 2^59, 2^63, the 8192-line and "
                 "65535-byte header limits, RMAX, the 64 KiB CONTINUATION cap), single-byte corruptions, plus "
                 "model-free malformed streams for h2 frames and the pure parsers; distinct = (operation, input "
